@@ -329,7 +329,7 @@ theorem consume_sim (F : Frame inpS inpW δ) (hops : OpsSim env.ops inpS inpW δ
     (hil : ms0.c.isLast = true → Closed inpS inpW δ) (heoi : eoi = false → ms0.c.isLast = false) :
     LockOut env.tbl fs inpW δ K Loc eoi (consume env inpS sd ms0) (consume env inpW sd mw0) ∨
     ((eoi = true → ¬ Closed inpS inpW δ) ∧
-      BreakOut env.tbl fs env.ops inpS inpW δ d ms0.x mw0 (consume env inpS sd ms0)) := by
+      BreakOut env.tbl fs env.ops Loc inpS inpW δ d ms0.x mw0 (consume env inpS sd ms0)) := by
   have hsm' : sm ≠ .inSeq := by
     rcases hsm with h | ⟨h, _⟩ <;> rw [h] <;> intro hh <;> cases hh
   have hnp := hrel.c.nextPos
@@ -371,7 +371,7 @@ theorem consume_sim (F : Frame inpS inpW δ) (hops : OpsSim env.ops inpS inpW δ
             cases he1 : eoi with
             | false => rw [heoi he1] at hh; cases hh
             | true => exact absurd ⟨he1, hil hh⟩ hcl
-        exact ⟨fun he1 hc => hcl ⟨he1, hc⟩, dispatch_end hops hcx1 hm1 hsm hdebt hl hbp⟩
+        exact ⟨fun he1 hc => hcl ⟨he1, hc⟩, dispatch_end hops hcx1 hm1 hsm hdebt hl hbp hloc⟩
   | some nd =>
     simp only
     have hns : hasSeq sd = false := cx.ok.mem (by rw [hmem]; rfl)
@@ -440,7 +440,7 @@ theorem consume_sim (F : Frame inpS inpW δ) (hops : OpsSim env.ops inpS inpW δ
               = skip + (inpS.drop ms0.c.nextPos).length by omega]
             exact hsk'⟩)
         rw [show ms0.c.nextPos + 1 + (inpS.drop ms0.c.nextPos).length = ms0.c.nextPos + (1 + (inpS.drop ms0.c.nextPos).length) by omega]
-        exact ⟨fun he1 hc => hcl' ⟨he1, hc⟩, dispatch_end hops hcx1 hm1 (Or.inl rfl) hdebt hl hbp⟩
+        exact ⟨fun he1 hc => hcl' ⟨he1, hc⟩, dispatch_end hops hcx1 hm1 (Or.inl rfl) hdebt hl hbp hloc⟩
 
 end
 
@@ -463,7 +463,7 @@ theorem stateFn_sim (F : Frame inpS inpW δ) (hops : OpsSim env.ops inpS inpW δ
     ((eoi = true → ¬ Closed inpS inpW δ) ∧ ∃ (x0 : Ctx κ) (mw0 : M κ),
       stateFn env inpW mw0 = stateFn env inpW mw ∧ K d x0.sink mw0.x.sink ∧ mw0.x.sim = x0.sim ∧
       x0.prevConsumed = mw0.x.prevConsumed + δ ∧
-      BreakOut env.tbl fs env.ops inpS inpW δ d x0 mw0 (stateFn env inpS ms)) := by
+      BreakOut env.tbl fs env.ops Loc inpS inpW δ d x0 mw0 (stateFn env inpS ms)) := by
   obtain ⟨⟨sm, hbr, hside⟩, hpc⟩ := hb
   have hrel0 : MRel δ d skip (flagsOf env.tbl fs ms.c) sm ms mw := hbr.toMRel hpc
   rw [stateFn_eq env inpS ms, stateFn_eq env inpW mw, hrel0.c.state]
